@@ -388,7 +388,14 @@ Definition observe (s : st) (r : res) : list Z :=
    nz (length (senders s)); nz (length (receivers s))].
 
 (* ---------- codec: flat integer encoding of a case (shared with the Python harness) ---------- *)
+(* codes 20..29 / 30..39: Send / Recv performed by a puppet inside a cancel-scope STRUCTURE that lets no cancellation
+   through to the call (shielded; shielded inside a cancelled or expired outer scope; nested two deep): for the stream
+   these are plain Send / Recv; codes 10, 11, 14 (clock advanced past a deadline, timer callbacks run, an outer scope
+   outside the shield cancelled) decode to the no-op Deliver.  That such structures are invisible to the stream is
+   exactly what the correspondence run checks. *)
 Definition decode_op (c a b d : Z) : op :=
+  if Z.leb 20 c && Z.ltb c 30 then Send (zn a) (zn b) (zn d) else
+  if Z.leb 30 c && Z.ltb c 40 then Recv (zn a) (zn b) else
   match c with
   | 0 => SendNowait (zn a) (zn b) (zn d)
   | 1 => RecvNowait (zn a) (zn b)
